@@ -223,6 +223,10 @@ def attribute(prop, v, prog, part, differs):
         m = e.get("match", {})
         if m.get("predicate") and not PREDICATES[m["predicate"]](prog):
             continue
+        if m.get("tags") and not all(t in v["tags"] for t in m["tags"]):
+            continue
+        if m.get("config_routes") and v["case"].get("route") not in m["config_routes"]:
+            continue
         forms = set(m.get("forms", []))
         if forms and not (forms & set(prog.forms)):
             continue
